@@ -17,14 +17,14 @@ PROPS = {
 }
 PRED = {"C19": ["C19_AckOnlyIfHeld", "C19_NoWriteUnlessHeld", "C19_RefusalCode", "C19_NotLeaderForOtherOwner"],
         "C24": ["C24_NoEffect", "C24_AuthError", "C24_NoLeak"]}
-ACL_APIS = ["Produce", "Fetch", "ListOffsets", "OffsetForLeaderEpoch", "DescribeConfigs", "DescribeBrokerConfigs", "AlterConfigs",
+ACL_APIS = ["Produce", "Fetch", "FetchById", "ListOffsets", "OffsetForLeaderEpoch", "DescribeConfigs", "DescribeBrokerConfigs", "AlterConfigs",
             "CreatePartitions", "CreateTopics", "DeleteTopics", "JoinGroup", "SyncGroup", "Heartbeat", "LeaveGroup", "OffsetCommit",
             "OffsetFetch", "DescribeGroups", "ListGroups", "DeleteGroups"]
 DEV = {
-    "C24": dict([("Handler_MetaNoAcl", "C24_"), ("Handler_AclAfterAppend", "C24_")] + [("Handler_NoAclOn" + a, "C24_") for a in ACL_APIS]),
-    "C19": {"HandlerLease_GateAfterAppend": "C19_", "HandlerLease_LeaseCheckSkipped": "C19_"},
+    "C24": dict([("Handler_MetaNoAcl", "C24_"), ("Handler_AclAfterAppend", "C24_"), ("Handler_FetchAclOnRequestName", "C24_")] + [("Handler_NoAclOn" + a, "C24_") for a in ACL_APIS if a != "FetchById"]),
+    "C19": {"HandlerLease_GateAfterAppend": "C19_", "HandlerLease_LeaseCheckSkipped": "C19_", "HandlerLease_StaleOwnedOnSessionReplace": "C19_"},
 }
-QUICK_DEVS = ["Handler_MetaNoAcl", "Handler_AclAfterAppend", "Handler_NoAclOnProduce", "Handler_NoAclOnFetch", "Handler_NoAclOnOffsetCommit", "Handler_NoAclOnCreateTopics"]
+QUICK_DEVS = ["Handler_MetaNoAcl", "Handler_AclAfterAppend", "Handler_FetchAclOnRequestName", "Handler_NoAclOnProduce", "Handler_NoAclOnFetch", "Handler_NoAclOnOffsetCommit", "Handler_NoAclOnCreateTopics"]
 TRACE_CFG = """CONSTANTS
  TopicSeq <- TwoTopics
  Known <- KnownTk
@@ -41,6 +41,8 @@ TRACE_CFG = """CONSTANTS
  DevNoAclOn <- NoApis
  DevGateAfterAppend = "none"
  DevLeaseCheckSkipped = FALSE
+ DevFetchAclOnRequestName = FALSE
+ DevStaleOwnedOnSessionReplace = FALSE
 INIT TInit
 NEXT TNext
 POSTCONDITION Reached
@@ -132,11 +134,15 @@ def check(ctx, prop):
     d = T.stage(ctx, DIR, "mc")
     mc = T.model_check(ctx, d, "MC_Handler.tla", "MC_%s_%s.cfg" % (fam, ctx.tier), coverage=not quick, timeout=2400, workers=8)
     ctx.log("model: %d distinct states, depth %d" % (mc.distinct, mc.depth))
+    mc2 = None
+    if lease:   # lease sessions: expiry, monitor, replacement (three single-partition produces, three environment steps)
+        mc2 = T.model_check(ctx, d, "MC_Handler.tla", "MC_HandlerLeaseSess.cfg", coverage=not quick, timeout=2400, workers=8)
+        ctx.log("session model: %d distinct states, depth %d" % (mc2.distinct, mc2.depth))
     scheds, labels = [], []
     devs = sorted(DEV[prop])
     if quick and not lease:
         rest = [x for x in devs if x not in QUICK_DEVS]
-        devs = QUICK_DEVS[:2] + rnd.sample(QUICK_DEVS[2:] + rest, 2)
+        devs = QUICK_DEVS[:3] + rnd.sample(QUICK_DEVS[3:] + rest, 2)
     for name in devs:
         h, r, auto = dev_schedule(ctx, d, name, mode)
         if h is None or not any(v.startswith(DEV[prop][name]) for v in r.violated):
@@ -166,7 +172,7 @@ def check(ctx, prop):
     if len(runs) != len(scheds):
         raise Broken("harness recorded %d runs for %d schedules" % (len(runs), len(scheds)))
     reqs = [r for r in rows if r["ev"] == "Req"]
-    vac = vacuity(prop, reqs)
+    vac = vacuity(prop, reqs, rows)
     consumed, viol, _ = layers.observe(ctx, DIR, "Obs_Handler.tla", "Obs_Handler.cfg", rows, timeout=3000)
     violations, first = [], set()
     for line, inv in sorted(viol):
@@ -191,8 +197,8 @@ def check(ctx, prop):
         level = "exploration"
         ctx.log("DRIFT: conformance layer rejected a trace although %s held: %s" % (prop, json.dumps(conf["first_rejection"])[:1500]))
     cov = {
-        "states": mc.distinct, "transitions": mc.generated, "depth": mc.depth, "exhaustive": True,
-        "model_config": "MC_%s_%s.cfg" % (fam, ctx.tier),
+        "states": mc.distinct + (mc2.distinct if mc2 else 0), "transitions": mc.generated + (mc2.generated if mc2 else 0), "depth": max(mc.depth, mc2.depth if mc2 else 0), "exhaustive": True,
+        "model_config": "MC_%s_%s.cfg" % (fam, ctx.tier) + (" + MC_HandlerLeaseSess.cfg" if mc2 else ""),
         "traces_validated_against_impl": len(runs), "trace_events": len(rows),
         "evaluations": len(reqs), "distinct_nontrivial": vac["nontrivial"], "vacuity": vac,
         "rule": ("C24: evaluations = requests sent through handler.Handle and judged; non-trivial = distinct (request, permissions, auto-create, environment, store contents) cases in which at least one addressed item is NOT authorized for the principal (the property's antecedent holds)"
@@ -204,7 +210,10 @@ def check(ctx, prop):
     }
     if not quick:
         cov["action_coverage"] = {k: v[1] for k, v in mc.action_coverage().items()}
-        need = ["Req", "SetHealth", "SetStore"] + (["ForeignAcquire", "CloseLease", "LeaseDown"] if lease else [])
+        if mc2:
+            for k, v in mc2.action_coverage().items():
+                cov["action_coverage"][k] = cov["action_coverage"].get(k, 0) + v[1]
+        need = ["Req", "SetHealth", "SetStore"] + (["ForeignAcquire", "CloseLease", "LeaseDown", "SessionExpire", "MonitorRun"] if lease else [])
         dead = [k for k in need if cov["action_coverage"].get(k, 0) == 0]
         if dead:
             raise Broken("vacuous model run: actions never taken: %s" % dead)
@@ -222,21 +231,21 @@ def authorized(ev, it):
             "JoinGroup": "group_write", "SyncGroup": "group_write", "Heartbeat": "group_write", "LeaveGroup": "group_write", "OffsetCommit": "group_write",
             "OffsetFetch": "group_read", "DescribeGroups": "group_read", "ListGroups": "group_read", "DeleteGroups": "group_admin",
             "AlterConfigs": "admin", "CreatePartitions": "admin", "CreateTopics": "admin", "DeleteTopics": "admin", "DescribeBrokerConfigs": "admin"}.get(ev["api"] if ev["mapi"] != "DescribeBrokerConfigs" else "DescribeBrokerConfigs")
-    perms = {tuple(p) for p in ev["perms"]}
+    allow = {tuple(p) for p in ev["perms"]["allow"]}
+    deny = {tuple(p) for p in ev["perms"]["deny"]}
     if need is None:
         return True
-    if need == "admin":
-        return ("admin", "cluster") in perms or ("admin", "*") in perms
-    return (need, it["name"]) in perms or (need, "*") in perms
+    name = "cluster" if need == "admin" else it["name"]
+    return (need, name) not in deny and (need, "*") not in deny and ((need, name) in allow or (need, "*") in allow or ev["perms"]["dflt"])
 
 
 def case_key(r):
     """Identity of a judged case: request, permissions, configuration and the environment the guards read."""
-    return json.dumps([r["mapi"], r["tg"], sorted(map(tuple, r["perms"])), r["auto"], r["health"], r["storeUp"], r["leaseUp"],
+    return json.dumps([r["mapi"], r["tg"], r["perms"], r["auto"], r["health"], r["storeUp"], r["leaseUp"],
                        [[it["owner0"], it["owns1"], it["owner1"]] for it in r["items"]], r["st"]], sort_keys=True)
 
 
-def vacuity(prop, reqs):
+def vacuity(prop, reqs, rows=()):
     if not reqs:
         raise Broken("vacuous run: no request was replayed")
     if prop == "C24":
@@ -245,11 +254,14 @@ def vacuity(prop, reqs):
         missing = [a for a in ACL_APIS if a not in apis and not (a == "ListOffsets" and {"ListOffsetsLatest", "ListOffsetsEarliest"} & apis)]
         changed = sum(1 for r in reqs if r["changed"])
         data = sum(1 for r in reqs if any(it["data"] for it in r["items"]))
-        if missing or not changed or not data:
+        byid = [r for r in unauth if r["mapi"] == "FetchById" and r["perms"]["deny"]]
+        if missing or not changed or not data or not byid:
             raise Broken("vacuous run: no unauthorized request for %s / requests changing state: %d / replies with record data: %d" % (missing, changed, data))
         return {"nontrivial": len({case_key(r) for r in unauth}), "unauthorized_requests": len(unauth), "unauthorized_by_api": {a: sum(1 for r in unauth if r["mapi"] == a) for a in sorted(apis)},
                 "requests_changing_state": changed, "replies_with_record_data": data,
-                "metadata_unknown_topic_autocreate_unprivileged": sum(1 for r in reqs if r["mapi"] == "Metadata" and r["auto"] and not r["perms"])}
+                "metadata_unknown_topic_autocreate_unprivileged": sum(1 for r in reqs if r["mapi"] == "Metadata" and r["auto"] and not r["perms"]["allow"] and not r["perms"]["dflt"]),
+                "unauthorized_by_deny_rule": sum(1 for r in unauth if r["perms"]["deny"]),
+                "fetch_by_topic_id_unauthorized": sum(1 for r in unauth if r["mapi"] == "FetchById")}
     prod = [r for r in reqs if r["api"] == "Produce" and r["leasing"]]
     nh = lambda it: not (it["owns1"] and it["owner1"] == "A")
     notheld = [r for r in prod if any(nh(it) for it in r["items"])]
@@ -258,6 +270,8 @@ def vacuity(prop, reqs):
              "lease_etcd_down": sum(1 for r in prod if not r["leaseUp"]),
              "acked": sum(1 for r in prod if any(it["code"] == 0 for it in r["items"])),
              "not_leader_replies": sum(1 for r in prod if any(it["code"] == 6 for it in r["items"]))}
+    kinds["session_expiries"] = sum(1 for r in rows if r["ev"] == "SessionExpire")
+    kinds["monitor_runs"] = sum(1 for r in rows if r["ev"] == "MonitorRun")
     if not prod or not notheld or not mixed or not all(kinds.values()):
         raise Broken("vacuous run: produce=%d notheld=%d mixed=%d kinds=%s" % (len(prod), len(notheld), len(mixed), kinds))
     return dict(kinds, nontrivial=len({case_key(r) for r in notheld}), produce_with_unheld_partition=len(notheld), mixed_held_and_not_held=len(mixed), leased_produce_requests=len(prod))
@@ -270,7 +284,7 @@ def self_test(ctx, prop, runs, lease):
         ri = next(i for i, run in enumerate(runs) if any(r["ev"] == "Req" and r["api"] == "Produce" and r["changed"] and all(it["code"] == 0 for it in r["items"]) for r in run))
         bad = copy.deepcopy(runs[ri])
         tgt = next(r for r in bad if r["ev"] == "Req" and r["api"] == "Produce" and r["changed"])
-        tgt["perms"] = []
+        tgt["perms"] = {"allow": [], "deny": [], "dflt": False}
         _, viol, _ = layers.observe(ctx, DIR, "Obs_Handler.tla", "Obs_Handler.cfg", bad, name="selfO")
         if not any(v[1] == "C24_NoEffect" for v in viol) or not any(v[1] == "C24_AuthError" for v in viol):
             raise Broken("binding self-test: observation layer did not flag a produce that changed state without permission")
